@@ -17,7 +17,7 @@ def strandedSchedule : List Ev :=
     .sendCheck ⟨1, false, 2⟩, .sendPush ⟨1, false, 2⟩, .pollStop, .pollMsg,
     .sendCheck ⟨2, true, 4⟩, .sendPush ⟨2, true, 4⟩,
     .stopSwap, .stopPush, .handlerEnd true, .pollStop,
-    .beginStop, .preStop true, .dropRx, .postStop true, .release ]
+    .beginStop, .preStop true, .dropRx, .postStop true, .release, .notifyExit ]
 
 /-- the actor is gone, nobody is in the middle of a send, one call was issued and none was ever answered -/
 theorem call_stranded_counterexample :
